@@ -199,6 +199,14 @@ func (s *stream) corruptFramed(pick int, mask byte, tiny int) bool {
 	if f.end == f.payload {
 		return false
 	}
+	if tiny == -2 {
+		// a 4-byte field set to all ones
+		off := f.payload + (pick/7)%(f.end-f.payload)
+		for i := off; i < off+4 && i < f.end; i++ {
+			s.inflight[i] = 0xff
+		}
+		return true
+	}
 	s.inflight[f.payload+(pick/7)%(f.end-f.payload)] ^= mask
 	return true
 }
@@ -243,6 +251,14 @@ func (s *stream) corruptFramedMy(pick int, mask byte, tiny int) bool {
 	if f.end == f.payload {
 		return false
 	}
+	if tiny == -2 {
+		// a 4-byte field set to all ones (biased to the first bytes after the command byte)
+		off := f.payload + (pick/7)%min(f.end-f.payload, 12)
+		for i := off; i < off+4 && i < f.end; i++ {
+			s.inflight[i] = 0xff
+		}
+		return true
+	}
 	s.inflight[f.payload+(pick/7)%(f.end-f.payload)] ^= mask
 	return true
 }
@@ -262,4 +278,60 @@ func (s *stream) shortenStartup(n int) bool {
 	s.inflight[0], s.inflight[1], s.inflight[2], s.inflight[3] = 0, 0, 0, byte(n)
 	s.inflight = append(s.inflight[:8], s.inflight[declared:]...)
 	return true
+}
+
+// inject puts a crafted message in front of what is in flight (which starts at a message boundary when
+// deliveries are whole writes): a hostile or confused peer that sends well-framed messages out of place.
+func (s *stream) inject(msg []byte) bool {
+	s.mu.Lock()
+	defer s.mu.Unlock()
+	if len(s.inflight) == 0 {
+		return false
+	}
+	s.inflight = append(append([]byte{}, msg...), s.inflight...)
+	return true
+}
+
+func myPacketBytes(seq byte, payload ...byte) []byte {
+	return append([]byte{byte(len(payload)), byte(len(payload) >> 8), byte(len(payload) >> 16), seq}, payload...)
+}
+
+func pgMessageBytes(typ byte, payload ...byte) []byte {
+	n := len(payload) + 4
+	return append([]byte{typ, byte(n >> 24), byte(n >> 16), byte(n >> 8), byte(n)}, payload...)
+}
+
+// hostileClientMessages are well-framed client messages that a session did nothing to prepare for.
+var hostileClientMessagesMy = [][]byte{
+	myPacketBytes(0, 0x17, 0xff, 0xff, 0xff, 0xff, 0x00, 0x01, 0x00, 0x00, 0x00),                   // execute "the last prepared statement" (MariaDB) when there is none
+	myPacketBytes(0, 0x17, 0x09, 0x00, 0x00, 0x00, 0x00, 0x01, 0x00, 0x00, 0x00, 0x00, 0x01, 0xfd, 0x00, 0x01, 'x'), // execute of an unknown statement with a parameter
+	myPacketBytes(0, 0x17, 0x01, 0x00, 0x00, 0x00, 0x00, 0x01, 0x00, 0x00, 0x00, 0xff, 0x01, 0xfd, 0x00, 0xfe, 0xff, 0xff, 0xff, 0xff, 0xff, 0xff, 0xff, 0x7f), // huge declared parameter length
+	myPacketBytes(0, 0x18, 0x01, 0x00, 0x00, 0x00, 0x00, 0x00, 'd', 'a', 't', 'a'),                 // send long data
+	myPacketBytes(0, 0x1c, 0x01, 0x00, 0x00, 0x00, 0x01, 0x00, 0x00, 0x00),                         // fetch
+	myPacketBytes(0, 0x19, 0x01, 0x00),                                                             // close, short
+	myPacketBytes(0, 0x1a),                                                                         // reset without an id
+	myPacketBytes(0, 0x16),                                                                         // prepare without text
+	myPacketBytes(0, 0x03),                                                                         // query without text
+	myPacketBytes(0, 0x04, 't', '1', 0x00, '%'),                                                    // field list
+	myPacketBytes(0, 0x11, 'u', 0x00, 0x00, 'd', 'b', 0x00),                                        // change user
+	myPacketBytes(0, 0x1f),                                                                         // reset connection
+	myPacketBytes(7, 0x0e),                                                                         // ping with a wrong sequence number
+}
+
+var hostileClientMessagesPg = [][]byte{
+	pgMessageBytes('B', 0, 'n', 'o', 'n', 'e', 0, 0, 0, 0, 0, 0, 0),                 // Bind to a statement that was never prepared
+	pgMessageBytes('B', 0, 0, 0, 1, 0, 1, 0xff, 0xff, 0xff, 0xf0, 0, 0),             // Bind with a parameter count and a huge parameter length
+	pgMessageBytes('E', 'p', 0, 0, 0, 0, 0),                                         // Execute of an unknown portal
+	pgMessageBytes('E'),                                                             // Execute without a body
+	pgMessageBytes('D', 'S', 'x', 0),                                                // Describe unknown statement
+	pgMessageBytes('D'),                                                             // Describe without a body
+	pgMessageBytes('C', 'P', 'x', 0),                                                // Close unknown portal
+	pgMessageBytes('P', 0, 0),                                                       // Parse cut after the name
+	pgMessageBytes('P', 0, 'S', 'E', 'L', 'E', 'C', 'T', ' ', '1', 0, 0x7f, 0xff),   // Parse declaring 32767 parameter types
+	pgMessageBytes('Q'),                                                             // Query without text
+	pgMessageBytes('d', 'r', 'o', 'w'),                                              // CopyData out of place
+	pgMessageBytes('f', 'n', 'o', 0),                                                // CopyFail out of place
+	pgMessageBytes('F', 0, 0, 0, 1, 0, 0, 0, 0, 0, 0),                               // FunctionCall
+	pgMessageBytes('H'),                                                             // Flush
+	pgMessageBytes('S'),                                                             // Sync out of place
 }
